@@ -99,6 +99,8 @@ def c04_ops(alpha, cfg, tier):
         ("contains", ("cmp", "measurement", (), "==", "m"), None),
         ("reopen",),
     ]
+    if cfg.get("csv", {}).get("access_mode") == "w+":
+        ops = [o for o in ops if o[0] != "reopen"]  # opening with w+ truncates by definition
     if cfg.get("csv", {}).get("lineterminator") == "\n":
         ops[4] = ("insert_multiple", ("P4", "P5b"), None, False, "db")
     if tier != "quick":
@@ -126,13 +128,15 @@ class C04(E1Check):
     def configs(self):
         cfgs = []
 
-        def add(flush, enc, dname):
+        def add(flush, enc, dname, mode=None):
             opts = dict(DIALECTS[dname])
+            if mode:
+                opts["access_mode"] = mode
             if enc is not None:
                 opts["encoding"] = enc
             if not flush:
                 opts["flush_on_insert"] = False
-            name = f"csv/flush={'T' if flush else 'F'}/enc={enc or 'default'}/{dname}"
+            name = f"csv/flush={'T' if flush else 'F'}/enc={enc or 'default'}/{dname}" + (f"/mode={mode}" if mode else "")
             cfgs.append({"name": name, "storage": "csv", "auto_index": True, "csv": opts})
 
         if self.tier == "quick":
@@ -146,6 +150,7 @@ class C04(E1Check):
             add(False, "latin-1", "semicolon")
             add(True, "utf-16", "quote_all")
             add(False, None, "unix")
+            add(True, None, "default", "w+")
             cfgs[0]["auto_index"] = True
             cfgs[1]["auto_index"] = False
         else:
@@ -153,6 +158,8 @@ class C04(E1Check):
                 for enc in ENCODINGS:
                     for d in DIALECTS:
                         add(flush, enc, d)
+            add(True, None, "default", "w+")
+            add(False, "utf-16", "semicolon", "w+")
             for i, c in enumerate(cfgs):
                 c["auto_index"] = i % 3 != 1
         return cfgs
@@ -173,7 +180,9 @@ class C04(E1Check):
             dims.append("flush_on_insert=False")
         if o.get("encoding"):
             dims.append("encoding=" + o["encoding"])
-        d = [k for k in o if k not in ("encoding", "flush_on_insert")]
+        if o.get("access_mode"):
+            dims.append("access_mode=" + o["access_mode"])
+        d = [k for k in o if k not in ("encoding", "flush_on_insert", "access_mode")]
         if d:
             dims.append("dialect:" + "+".join(sorted(d)))
         return f"C04|{what}|op={opkind}|{','.join(dims) or 'default-config'}"
@@ -213,7 +222,10 @@ class C04(E1Check):
         counters["file_decodes_after_close"] += 1
         out += [dict(v, kind="state") for v in self._decode_check(cfg, data, stored, "file-differs-after-close", lastop)]
         try:
-            db2 = TinyFlux(w.path, auto_index=False, **dict(cfg.get("csv", {})))
+            opts = dict(cfg.get("csv", {}))
+            if opts.get("access_mode") in ("w", "w+"):
+                opts["access_mode"] = "r"  # a fresh w+ open truncates by definition; read the file as it is
+            db2 = TinyFlux(w.path, auto_index=False, **opts)
             got = [refmodel.rp_of_point(p) for p in db2.all(sorted=False)]
             db2.close()
             if got != stored:
